@@ -16,7 +16,7 @@ from pbt.universe import vu
 
 LEVEL = 'exploration'
 RULE = ('Engine "probe": DAGs (1-7 nodes) of probing tasks - default filter_context, a filter_context selecting the context keys '
-        'named by a parameter, and a deliberately non-idempotent wrapping filter - x backends {serial, fork, spawn; fork and spawn Labs alternating inside one process} x max_workers x generated contexts (nested values; passed complete, or as a dict that is filled in after Lab() and before run_tasks); the caller '
+        'named by a parameter, and a deliberately non-idempotent wrapping filter - x backends {serial, fork, spawn; fork and spawn Labs alternating inside one process} x max_workers x generated contexts (nested values, empty, None; passed complete, or as a dict that is filled in after Lab() and before run_tasks); the caller '
         'mutates a module global and appends to a module-level list of the task module after import and before run_tasks. Each '
         'run() reports pid, parent pid, native thread id, the module global, the list, and its value embeds a digest of '
         'self.context. Oracle: value == reference evaluator with the reference-filtered context (context clause, every backend); '
@@ -72,7 +72,8 @@ def check_probe(spec: dict) -> core.CaseResult:
     nt = backend != 'serial' and len(filt) >= 2
     seen = set()
     findings = [x for x in findings if not (x.signature in seen or seen.add(x.signature))]
-    return dagprop.result(obs, findings, nt, [f'backend={backend}', f'max_workers={spec["lab"]["max_workers"]}', f'filters={min(len(filt), 3)}'], prop='C16')
+    return dagprop.result(obs, findings, nt, [f'backend={backend}', f'max_workers={spec["lab"]["max_workers"]}', f'filters={min(len(filt), 3)}',
+                                                    f'lab_context={"empty" if not (spec["lab"].get("context") or not spec["lab"].get("no_nonce")) else "non-empty"}'], prop='C16')
 
 
 def snapshot_store(path: str) -> dict:
@@ -133,8 +134,14 @@ CTX_VALUES = st.one_of(st.integers(0, 5), st.sampled_from(['ctxvalue-aaaaaaaa', 
 
 
 def probe_spec(backend: str):
-    def fix(sp, ctx, late=False):
+    def fix(sp, ctx, late=False, bare=0):
         sp['lab']['late_context'] = late
+        if bare >= 2:
+            # exactly the generated context (the harness adds nothing); in half of these cases it is empty / None
+            sp['lab']['no_nonce'] = True
+            if bare >= 3:
+                ctx = {}
+                sp['lab']['context_none'] = bare == 4
         for n in sp['nodes']:
             n['mode'] = 'probe'
         sp['requested'] = [{'ref': n['id'], 'fresh': False} for n in sp['nodes']]
@@ -145,7 +152,7 @@ def probe_spec(backend: str):
     base = specs.dag_spec(min_nodes=1, max_nodes=4 if backend == 'spawn' else 7, backends=(backend,), types=['NN', 'N2', 'CtxSub', 'CtxSub2', 'Z', 'CtxWrap', 'CtxSubMix', 'CtxSubKid'],
                           pre_cache=False, bust=False, allow_fresh_same_parent=True, wide=(backend != 'serial'),
                           max_workers=(1, 1, 2) if backend == 'spawn' else (1, 2, 3, None))
-    return st.builds(fix, base, st.dictionaries(st.sampled_from(['a', 'b', 'c', 'zz', 'other']), CTX_VALUES, max_size=4), st.booleans())
+    return st.builds(fix, base, st.dictionaries(st.sampled_from(['a', 'b', 'c', 'zz', 'other']), CTX_VALUES, max_size=4), st.booleans(), st.integers(0, 4))
 
 
 def scale_spec(backend: str):
